@@ -1254,6 +1254,12 @@ class KEval:
                     S.stores.append(Store(st.arr if not st.local else tag + "." + st.arr, st.idx, st.value, st.op, guards + path + st.guards, loops + st.loops, st.node, st.local, st.func, st.origin))
                 for c, g, l in sub.compares:
                     S.compares.append((c, guards + path + g, loops + l))
+                for nm_, v_, op_, g_, l_, n_ in sub.assigns:
+                    # scalar updates of the callee (its counters) are effects of the caller's evaluation too: a kernel that delegates to another is judged on the same facts
+                    S.assigns.append(((tag + "." + nm_) if nm_ in self._locals_of(f) else nm_, v_, op_, guards + path + g_, loops + l_, n_))
+                for l_ in sub.loops:
+                    if l_ not in S.loops:
+                        S.loops.append(l_)
                 for nm, g, nd in sub.raises:
                     S.raises.append((nm, guards + path + g, nd))
                 S.sub = getattr(S, "sub", {})
